@@ -128,6 +128,7 @@ class FileProxy:
             flags |= os.O_EXCL
         existed = os.path.exists(path)
         self.fd = os.open(path, flags, 0o644)
+        track_fd(actor, self.fd)
         self._stamp()
         if not existed:
             self.w.stamp_parent(path)
@@ -174,7 +175,10 @@ class FileProxy:
         if not self.closed:
             self.closed = True
             try:
-                if self.fd is not None:
+                if self.fd is not None and self.fd in getattr(self.a, 'fds', ()):
+                    # (a descriptor that was reaped at the death of its process must not be closed again:
+                    # the number may have been re-used)
+                    self.a.fds.discard(self.fd)
                     os.close(self.fd)
             except OSError:
                 pass
@@ -201,6 +205,24 @@ def make_open(world, actor):
     return sim_open
 
 
+def track_fd(actor, fd):
+    """file descriptors belong to the simulated process: when it dies (kill or exit) the kernel closes them, which
+    also releases flock()/lockf() locks held through them"""
+    if not hasattr(actor, 'fds'):
+        actor.fds = set()
+    actor.fds.add(fd)
+
+
+def reap_fds(actor):
+    for fd in list(getattr(actor, 'fds', ())):
+        try:
+            os.close(fd)
+        except OSError:
+            pass
+    if hasattr(actor, 'fds'):
+        actor.fds.clear()
+
+
 class OsFacade:
     """Forwards everything to the real os module; mutating calls are yield points."""
     _MUT = ('rename', 'replace', 'link', 'symlink', 'unlink', 'remove', 'rmdir', 'mkdir', 'makedirs',
@@ -212,6 +234,22 @@ class OsFacade:
 
     def __getattr__(self, name):
         real = getattr(os, name)
+        if name == 'open':
+            a = self._a
+
+            def tracked_open(*args, **kw):
+                a.check_alive()
+                fd = real(*args, **kw)
+                track_fd(a, fd)
+                return fd
+            return tracked_open
+        if name == 'close':
+            a = self._a
+
+            def tracked_close(fd):
+                getattr(a, 'fds', set()).discard(fd)
+                return real(fd)
+            return tracked_close
         if name in OsFacade._MUT:
             w, a = self._w, self._a
 
@@ -261,6 +299,7 @@ class TempfileFacade:
         self._a.yield_point('mkstemp')
         p = os.path.join(dir or self._w.root, self._name(prefix, suffix))
         fd = os.open(p, os.O_RDWR | os.O_CREAT | os.O_EXCL, 0o600)
+        track_fd(self._a, fd)
         self._w.stamp(p)
         return fd, p
 
@@ -800,6 +839,8 @@ def _run(ctx, root):
         return None
 
     def after_step(s, a):
+        if a.done:
+            reap_fds(a)         # process death or exit: the kernel closes its descriptors (and drops its file locks)
         if state['overwritten'] is None:
             state['overwritten'] = monitor(w)
 
